@@ -28,7 +28,7 @@ func main() {
 	}
 	if len(os.Args) > 1 && os.Args[1] == "-c07seeds" {
 		// developer aid: how does every seed fare on the real decoder?
-		for _, ep := range buildRegistry() {
+		for _, ep := range buildRegistry(len(os.Args) > 2 && os.Args[2] == "thorough") {
 			for i, s := range ep.Seeds {
 				o := call(ep, s)
 				out := "value"
@@ -53,9 +53,9 @@ const (
 func allocBound(inLen int) uint64 { return uint64(allocBase + allocPerByte*inLen) }
 
 func run(c *vf.Ctx) {
-	c.Rule("registry of decoding entry points (checks/c07/registry*.go); per entry point: seeds = valid encodings made by the library's own encoders (hand-built where no encoder exists); " +
-		"0 deviations = seeds; 1 = every truncation, every position x {00,01,7F,80,FE,FF,orig+1,orig-1} then x all 256 values (quick: seeds <= 96 bytes), 11 appended suffixes, every prefix with last byte FF/00; " +
-		"2 = every adjacent 2-byte window x 8 16-bit extremes (both byte orders), every adjacent 4-byte window x 8 32-bit extremes; thorough: every pair of positions x {00,FF}^2; " +
+	c.Rule("registry of decoding entry points (checks/c07/registry*.go); per entry point: seeds = valid encodings made by the library's own encoders (hand-built where no encoder exists; SMB structures: zero instance plus reflect-filled instances with every count/length/buffer = n, n in {2,3,5}, thorough {1,2,3,4,5,8}); " +
+		"0 deviations = seeds; 1 = every truncation, every position x {00,01,7F,80,FE,FF,orig+1,orig-1} then x all 256 values (quick: seeds <= 160 bytes), 11 appended suffixes, every prefix with last byte FF/00; " +
+		"2 = every adjacent 2-byte window x 8 16-bit extremes (both byte orders), every adjacent 4-byte window x 8 32-bit extremes; every pair of positions x {00,FF}^2 (quick: seeds <= 160 bytes; thorough: seeds <= 400 bytes x {00,FF,80}^2), thorough: every truncation x every position x {00,03,05,FF}; " +
 		"small scope: all byte strings <=2 and all strings <=3 (thorough 4) over a 16-symbol alphabet for binary decoders (SMB commands: appended to a valid header for that command), " +
 		"all strings <=n over each text parser's own delimiter alphabet. A case = (entry point, input byte string); inputs are de-duplicated per entry point, " +
 		"so every counted case is a distinct byte string handed to the real decoder; distinct_nontrivial counts exactly those (measured in the workers, de-dup by 64-bit hash)")
@@ -63,7 +63,7 @@ func run(c *vf.Ctx) {
 	c.Assume("allocation bound 1 MiB + 256*len(input) per call; measured per batch and bisected to single inputs (min of 3 runs) on excess")
 	c.Assume("termination: no wall-clock oracle; only an input that kills (fatal error) or hangs (>20 s) a fresh worker process 3 times out of 3 fails")
 
-	reg := buildRegistry()
+	reg := buildRegistry(c.Thorough())
 	if len(reg) == 0 {
 		c.Fatalf("empty registry")
 	}
@@ -74,6 +74,10 @@ func run(c *vf.Ctx) {
 		}
 		names[ep.Name] = true
 	}
+
+	// E5 self-test, concurrently with the real run
+	selfErr := make(chan error, 1)
+	go func() { selfErr <- selfTest(c, reg) }()
 
 	agg := newAggregate()
 	// distinct cases are counted (de-duplicated by hash) inside the workers, per entry point; vf only
@@ -95,6 +99,9 @@ func run(c *vf.Ctx) {
 	p := newPool(c, reg, agg)
 	p.runAll()
 	close(agg.distinctCh)
+	if err := <-selfErr; err != nil {
+		c.Fatalf("E5 self-test failed (worker/triage machinery does not detect a known failure): %v", err)
+	}
 	if os.Getenv("C07_VERBOSE") != "" {
 		fmt.Printf("C07: workers finished after %.1fs\n", time.Since(p.start).Seconds())
 		p.printSlowest(12)
@@ -159,7 +166,8 @@ func run(c *vf.Ctx) {
 		siteList = append(siteList, s)
 	}
 	sort.Strings(siteList)
-	c.Set("entry_points_registered", len(reg))
+	c.Set("e5_selftest", "panic, over-allocation, stack overflow and hang of the synthetic entry point c07.selftest were each detected and pinned to their input")
+	c.Set("entry_points_registered", len(reg)-1)
 	c.Set("entry_points_observed", len(attrNames))
 	c.Set("evaluations_per_entry_point", perEP)
 	c.Set("distinct_panic_sites", len(siteList))
@@ -185,7 +193,7 @@ func run(c *vf.Ctx) {
 		c.Sample(s.Gen, map[string]any{"entry_point": s.Name, "input_hex": hexq(s.In), "outcome": s.Out})
 	}
 	fmt.Printf("C07: %d entry points registered, %d observed (incl. per-command attribution), %d evaluations, %d distinct panic sites, %.1fs\n",
-		len(reg), len(attrNames), total, len(siteList), time.Since(p.start).Seconds())
+		len(reg)-1, len(attrNames), total, len(siteList), time.Since(p.start).Seconds())
 	if os.Getenv("C07_VERBOSE") != "" {
 		for _, s := range siteList {
 			fmt.Println("  site:", s)
